@@ -9,7 +9,9 @@ Sub-oracles (K = 10; rtol, atol are the tolerances given to the solver)
                  inequality that fails on the raw numbers is re-judged with the backward bound (an exact
                  solution with the inequality satisfied must lie inside the solver's tolerance box,
                  slopes along the family of exact junctions measured by the reference matcher)
-  hybrid         |v- - c_b(T-)| <= 1e-8 with c_b from the EOS object at the returned T-, c_b(T-) < vw, v+ < v-
+  hybrid         |v- - c_b(T-)| <= 1e-8 with c_b from the EOS object at the returned T-, and v- < vw
+                 (v+ < v- is NOT demanded of hybrids: the property does not state it, and with c_s > c_b exact
+                 hybrids close to vJ have v+ = c_s^2/vw > c_b)
   deton          v+ == vw and T+ == Tn exactly, v- < v+, v- >= c_b(T-) - eps (weak branch; eps = image of
                  the T- tolerance window under the junction relation and c_b)
   jouguet-cj     vJ of the solver equals the Chapman-Jouguet point computed twice independently
@@ -33,6 +35,7 @@ no fastestDeflag/slowestDeton) are checked.  WallGoError / a tuple of None are o
 from __future__ import annotations
 
 import math
+import os
 
 from hypothesis import strategies as st
 
@@ -62,6 +65,17 @@ HYB_ABS = 1e-8
 VJ_FLOOR = 1e-11
 CUT_MARGIN = 0.01
 DETON_SHIFT = 0.01
+ILL_COND_V = 0.005   # a constructed cut whose velocity the tolerances resolve worse than this is discarded
+# Confirmed defects of the unchanged tree steered around while the switch is True (VERIF_NO_AVOID=1 disables; a case
+# carrying "force": true - the known_*.json replays - is always evaluated)
+AVOID = {
+    # fastestDeflag() evaluates findMatching at vMin + 1e-3; for alpha_n > 1/3 the exact v+ there is below the
+    # matching's own lower bracket end 1e-3, findMatching returns None (-> TypeError) or a non-solution (-> the
+    # cut is missed and vJ is returned)
+    "fastest_bracket_end": True,
+}
+if os.environ.get("VERIF_NO_AVOID"):
+    AVOID = {k: False for k in AVOID}
 TOLERANCES = {
     "K": K,
     "vm_equals_vw": "2 ulp (sqrt(vw^2) is exact in IEEE arithmetic)",
@@ -75,6 +89,8 @@ TOLERANCES = {
     "jouguet_deton": "2 x reference gap + deton_eps",
     "cut": "K(atol + rtol v*) + [K(atol + rtol T) + |dT/dvp| dvp_allow]/|dT/dvw|; +0.01 documented for slowestDeton",
     "cut_margin": CUT_MARGIN,
+    "cut_ill_conditioned": ILL_COND_V,
+    "avoid_switches": {k: bool(x) for k, x in AVOID.items()},
 }
 ASSUMPTIONS = [
     "c_b(T-) is the EOS object's own csqLowT at the returned T- (frozen at the ends of the tabulated range, as "
@@ -162,7 +178,9 @@ class Ctx:
         self.fam = meta["family"]
         self.eos = R.Eos(th, meta["T_valid"][0])
         self._vJ = "unset"
+        self._vJ_why = None
         self.fallback = {"n": 0}
+        self.hyd = None
 
     def vJ_ref(self):
         """(vJ, TmJ) of the reference, cross-checked by the independent minimisation; None if unavailable."""
@@ -186,6 +204,7 @@ class Ctx:
                 return _orig(vwT)
 
             hyd.template.findMatching = counted
+            self.hyd = hyd
             return hyd, hyd.vMin, math.sqrt(float(self.th.csqLowT(self.Tn))), hyd.vJ
         tm = Z.build_template(self.th, self.rtol, self.atol)
         return tm, tm.vMin, float(tm.cb), tm.vJ
@@ -249,8 +268,15 @@ def judge_matching(v, ctx, vw, res, cls0, want=None, sub_prefix=""):
     vp, vm, Tp, Tm = (float(x) for x in res)
     branch = Z.branch_of(vw, vp, vm)
     fb = "/fallback" if ctx.fallback["n"] > 0 else ""
+    if ctx.solver == "general" and branch != "detonation" and ctx.hyd is not None and not ctx.hyd.success:
+        fb += "/unconverged-flag"  # the inner 2x2 solve (scipy hybr) did not converge and the result was used anyway
+        v.label("hybr-unconverged-flag")
     cls = f"{cls0}/{branch}{fb}"
     v.checked(sub_prefix + "range")
+    if ctx.solver == "template" and "/at-vMin" in cls0 and (vp == 0.0 or Tm == 0.0):
+        # exactly at the template model's v_min the exact solution is the limiting one (v+ = 0, T- = 0)
+        v.label("outcome:degenerate-at-vMin")
+        return None
     if not (0.0 < vp < 1.0 and 0.0 < vm < 1.0 and Tp > 0.0 and Tm > 0.0):
         v.fail(sub_prefix + "range", cls,
                f"returned matching is not admissible: (v+, v-, T+, T-) = ({vp:.6g}, {vm:.6g}, {Tp:.6g}, {Tm:.6g}) "
@@ -290,7 +316,16 @@ def judge_matching(v, ctx, vw, res, cls0, want=None, sub_prefix=""):
         if Tp != Tn:
             v.fail(sub, cls, f"detonation with T+ != Tn: T+/Tn - 1 = {Tp / Tn - 1:.3e}", vw=vw)
         if not vm < vp:
-            v.fail(sub, cls, f"detonation with v- >= v+: v-={vm:.12g}, v+={vp:.12g}", vw=vw)
+            refd = R.detonation(eos, Tn, vw)
+            if not refd.ok:
+                v.label(f"ref:{refd.reason}")
+                if refd.reason not in R.NO_SOLUTION_REASONS:
+                    v.discarded(f"reference:{(refd.reason or '?').split(':')[0]}")
+            elif not refd.vm < refd.vp:
+                v.label("exact-solution-violates:vm<vp")
+            elif vm - vp > deton_eps(ctx, vw, Tm):
+                v.fail(sub, cls, f"detonation with v- >= v+: v-={vm:.12g}, v+={vp:.12g} (exact v-={refd.vm:.12g})",
+                       vw=vw, matching=[vp, vm, Tp, Tm])
         eps = deton_eps(ctx, vw, Tm)
         v.info["deton_vm_minus_cb"] = vm - cb
         if not vm >= cb - eps:
@@ -306,8 +341,10 @@ def judge_matching(v, ctx, vw, res, cls0, want=None, sub_prefix=""):
             allow["a"], allow["why"] = ref_allow(ctx, vw, vp)
         return allow["a"]
 
-    def strict(sub, name, lhs, rhs, slack_key, text):
-        """lhs < rhs, raw; else within the backward bound."""
+    def strict(sub, name, lhs, rhs, slack_key, text, exact):
+        """lhs < rhs on the raw numbers; else the exact solution (reference) arbitrates: if it violates the
+        inequality itself the EOS, not the solver, is the reason (label only); otherwise the returned numbers
+        must satisfy it within the backward bound."""
         if lhs < rhs:
             return
         a = allowance()
@@ -315,15 +352,18 @@ def judge_matching(v, ctx, vw, res, cls0, want=None, sub_prefix=""):
             v.label(f"ref:{allow['why']}")
             if allow["why"] not in R.NO_SOLUTION_REASONS:
                 v.discarded(f"reference:{allow['why']}")
-                return
-            slack = 0.0
-        else:
-            slack = sum(a[k] for k in slack_key)
+            return
+        el, er = exact(a["ref"])
+        if not el < er:
+            v.label(f"exact-solution-violates:{name}")
+            return
+        slack = sum(a[k] for k in slack_key)
         v.info[f"slack_{name}"] = [lhs - rhs, slack]
         v.label(f"inequality-within-tolerance:{name}")
         if lhs - rhs > slack:
             v.fail(sub, cls, f"{text}: {lhs:.12g} vs {rhs:.12g} at vw={vw:.10g} (excess {lhs - rhs:.3e}, "
-                             f"tolerance-propagated slack {slack:.3e})", vw=vw, matching=[vp, vm, Tp, Tm])
+                             f"tolerance-propagated slack {slack:.3e}; exact solution has {el:.12g} < {er:.12g})",
+                   vw=vw, matching=[vp, vm, Tp, Tm], exact=list(a["ref"].tuple()))
 
     if branch == "deflagration":
         sub = sub_prefix + "deflag"
@@ -334,8 +374,8 @@ def judge_matching(v, ctx, vw, res, cls0, want=None, sub_prefix=""):
             v.fail(sub, cls + "/supersonic",
                    f"v- = vw = {vw:.10g} exceeds the sound speed behind the wall c_b(T-) = {cb:.10g}",
                    vw=vw, matching=[vp, vm, Tp, Tm], cb=cb)
-        strict(sub, "vp<vm", vp, vm, ("vp",), "deflagration with v+ >= v-")
-        strict(sub, "Tp>Tn", Tn, Tp, ("Tp",), "deflagration with T+ <= Tn")
+        strict(sub, "vp<vm", vp, vm, ("vp",), "deflagration with v+ >= v-", lambda r: (r.vp, r.vm))
+        strict(sub, "Tp>Tn", Tn, Tp, ("Tp",), "deflagration with T+ <= Tn", lambda r: (Tn, r.Tp))
     else:
         sub = sub_prefix + "hybrid"
         v.checked(sub)
@@ -345,7 +385,6 @@ def judge_matching(v, ctx, vw, res, cls0, want=None, sub_prefix=""):
                              f"T- = {Tm:.8g}); difference {vm - cb:.3e}", vw=vw, matching=[vp, vm, Tp, Tm], cb=cb)
         if not vm < vw:
             v.fail(sub, cls, f"hybrid with v- = {vm:.12g} >= vw = {vw:.12g}")
-        strict(sub, "vp<vm", vp, vm, ("vp",), "hybrid with v+ >= v-")
     return branch
 
 
@@ -468,7 +507,7 @@ def check_jouguet(case, v):
     return v
 
 
-def _ranges(ctx_spec, meta, low_hi=None, high_hi=None, genuine=False, extrapolate=False):
+def _ranges(meta, low_hi=None, high_hi=None, genuine=False, extrapolate=False):
     """Tabulated ranges (units of Tn) with the upper ends replaced; the cubic family keeps its own lower end."""
     Tn = meta["Tn"]
     low = list(Z.WIDE)
@@ -490,6 +529,27 @@ def _ranges(ctx_spec, meta, low_hi=None, high_hi=None, genuine=False, extrapolat
     return {"high": high, "low": low, "genuine": gen, "extrapolate": bool(extrapolate)}
 
 
+def _scan(v, ctx, hyd, vw, cls):
+    """One wall of a scan: matching judged like any other (violations kept, labels dropped)."""
+    sub = Verdict()
+    br, res = run_matching(sub, ctx, hyd, vw, cls)
+    v.violations.extend(sub.violations)
+    v.subs_checked.extend(sub.subs_checked)
+    if sub.discard and not v.discard:
+        v.discarded(sub.discard)
+    return res
+
+
+def _deflag_family_slopes(eos, Tn, vx, m, pick):
+    """|dT/dvw| of the exact family at vx (central difference of the reference) for T = pick(matching)."""
+    h = 1e-4 * vx
+    ma = R.match_deflag(eos, Tn, vx - h, hint_vp=m.vp * (1 - 1e-4))
+    mb = R.match_deflag(eos, Tn, vx + h, hint_vp=m.vp * (1 + 1e-4))
+    if not (ma.ok and mb.ok):
+        return None
+    return abs(pick(mb) - pick(ma)) / (2 * h)
+
+
 def check_cut(case, v):
     from WallGo import WallGoError
 
@@ -500,8 +560,6 @@ def check_cut(case, v):
     eos, Tn, rtol, atol = ctx0.eos, ctx0.Tn, ctx0.rtol, ctx0.atol
     spec, meta = case["eos"], ctx0.meta
     side, phase = case["side"], case["phase"]
-    cls0 = f"general/{ctx0.fam}/{side}/{phase}" + ("/genuine" if case["genuine"] else "") + \
-           ("/extrap" if case["extrapolate"] else "")
     v.label(f"cut-side:{side}", f"cut-phase:{phase}", f"genuine:{case['genuine']}", f"extrapolate:{case['extrapolate']}")
     try:
         hyd0, vmin, cb, vJ = ctx0.make_solver()
@@ -509,13 +567,17 @@ def check_cut(case, v):
         v.label("outcome:init-WallGoError")
         v.info["init_error"] = str(exc)[:200]
         return v
+    strong = vmin > 1e-3
+    cls0 = (f"general/{ctx0.fam}/{side}/{phase}" + ("/vMin>0" if strong else "")
+            + ("/genuine" if case["genuine"] else "") + ("/extrap" if case["extrapolate"] else ""))
+    v.label("vMin>0" if strong else "vMin=0")
     v.info.update(vMin=vmin, vJ=vJ, alN=meta["alN"])
 
     # ---- no cut inside the window ------------------------------------------------------------------
     if side == "none":
         if ctx0.fam == "cubic":
-            # the broken phase of the cubic family has a natural (genuine) end that may or may not cut the window:
-            # only the uncut statement can be made when the reference says the window is free
+            # the broken phase of the cubic family has a natural (genuine) end that may cut the window: the
+            # uncut statement is only made when the reference says the window is free
             try:
                 mtop = R.match_deflag(eos, Tn, vJ - 1e-3)
             except R.RefFailure:
@@ -535,7 +597,7 @@ def check_cut(case, v):
         v.info.update(fastest=vf, slowest=vs)
         if vf != vJ:
             v.fail("nocut", f"{cls0}/fastest", f"no range is reached inside the window but fastestDeflag() = {vf!r} != vJ = {vJ!r}")
-        if vs != vJ and not (ctx0.fam == "cubic"):
+        if vs != vJ and ctx0.fam != "cubic":
             v.fail("nocut", f"{cls0}/slowest", f"no range is reached by any detonation but slowestDeton() = {vs!r} != vJ = {vJ!r}")
         if any(hyd0.doesPhaseTraceLimitvmax):
             v.fail("cut-flag", f"{cls0}/nocut", f"doesPhaseTraceLimitvmax = {hyd0.doesPhaseTraceLimitvmax} without any cut")
@@ -549,10 +611,18 @@ def check_cut(case, v):
             return v
         vstar = lo + case["u"] * (hi - lo)
         refd = R.detonation(eos, Tn, vstar)
-        if not refd.ok:
-            v.label(f"ref:{refd.reason}")
-            return v.discarded(f"reference:{(refd.reason or '?').split(':')[0]}")
-        rg = _ranges(spec, meta, low_hi=refd.Tm / Tn, genuine=case["genuine"], extrapolate=case["extrapolate"])
+        h = 1e-4
+        ra, rb = R.detonation(eos, Tn, vstar - h), R.detonation(eos, Tn, vstar + h)
+        if not (refd.ok and ra.ok and rb.ok):
+            why = next((r.reason for r in (refd, ra, rb) if not r.ok), "?")
+            v.label(f"ref:{why}")
+            return v.discarded(f"reference:{(why or '?').split(':')[0]}")
+        slope = abs(rb.Tm - ra.Tm) / (2 * h)
+        allowed = K * (atol + rtol * vstar) + (box(refd.Tm, rtol, atol) / slope if slope > 0 else float("inf"))
+        if not allowed < ILL_COND_V:
+            v.label("cut:ill-conditioned")
+            return v.discarded("cut:ill-conditioned")
+        rg = _ranges(meta, low_hi=refd.Tm / Tn, genuine=case["genuine"], extrapolate=case["extrapolate"])
         if rg is None:
             v.label("cut:beyond-natural-end")
             return v
@@ -564,18 +634,11 @@ def check_cut(case, v):
             v.label("outcome:WallGoError")
             v.info["error"] = str(exc)[:160]
             return v
-        # slope dT-/dvw of the exact weak detonation
-        h = 1e-4
-        ra, rb = R.detonation(eos, Tn, vstar - h), R.detonation(eos, Tn, vstar + h)
-        if not (ra.ok and rb.ok):
-            return v.discarded("reference:deton-slope")
-        slope = abs(rb.Tm - ra.Tm) / (2 * h)
-        allowed = K * (atol + rtol * vstar) + box(refd.Tm, rtol, atol) / slope if slope > 0 else float("inf")
         v.checked("cut-slowest")
         v.nontrivial = True
-        v.info.update(vstar=vstar, slowest=vs, slowest_err=vs - (vstar + DETON_SHIFT), slowest_allowed=allowed,
-                      Tcut=refd.Tm)
         want = min(1.0, vstar + DETON_SHIFT)
+        v.info.update(vstar=vstar, slowest=vs, slowest_err=vs - want, slowest_allowed=allowed, Tcut=refd.Tm,
+                      slowest_ratio=abs(vs - want) / allowed)
         if not abs(vs - want) <= allowed + 1e-12:
             v.fail("cut-slowest", cls0,
                    f"low-T range ends at T-({vstar:.8g}) = {refd.Tm:.8g}: slowestDeton() = {vs:.10g}, expected "
@@ -589,7 +652,7 @@ def check_cut(case, v):
             vw = vs + (0.99 - vs) * i / n
             if vw <= vJ2 or vw > 0.99:
                 continue
-            br, res = run_matching(v, ctx, hyd, vw, f"{cls0}/scan")
+            res = _scan(v, ctx, hyd, vw, f"{cls0}/scan")
             if res is None:
                 continue
             if res[3] > refd.Tm + box(refd.Tm, rtol, atol):
@@ -605,35 +668,63 @@ def check_cut(case, v):
         v.label("cut:window-too-narrow")
         return v
     vstar = lo + case["u"] * (hi - lo)
-    m = R.match_deflag(eos, Tn, vstar)
-    if not m.ok:
-        v.label(f"ref:{m.reason}")
-        if m.reason in R.NO_SOLUTION_REASONS:
-            return v
-        return v.discarded(f"reference:{(m.reason or '?').split(':')[0]}")
-    cuts = {}  # phase -> (v at which its range is reached, temperature)
-    if phase in ("low", "both"):
-        cuts["low"] = (vstar, m.Tm)
-    if phase in ("high", "both"):
-        if phase == "both":
-            # second cut at a different velocity: the earlier one must win
+    cuts = {}  # phase -> (velocity at which its range is reached, temperature, reference matching)
+    try:
+        m = R.match_deflag(eos, Tn, vstar)
+        m2 = None
+        if phase == "both":  # second cut at a different velocity: the earlier one must win
             v2 = lo + case["u2"] * (hi - lo)
             m2 = R.match_deflag(eos, Tn, v2)
-            if not m2.ok:
-                return v.discarded(f"reference:{(m2.reason or '?').split(':')[0]}")
-            cuts["high"] = (v2, m2.Tp)
-        else:
-            cuts["high"] = (vstar, m.Tp)
-    rg = _ranges(spec, meta, low_hi=cuts["low"][1] / Tn if "low" in cuts else None,
+    except R.RefFailure as exc:
+        return v.discarded(f"reference:{str(exc).split(':')[0]}")
+    for mm_ in (m, m2):
+        if mm_ is not None and not mm_.ok:
+            v.label(f"ref:{mm_.reason}")
+            if mm_.reason in R.NO_SOLUTION_REASONS:
+                return v
+            return v.discarded(f"reference:{(mm_.reason or '?').split(':')[0]}")
+    if phase in ("low", "both"):
+        cuts["low"] = (vstar, m.Tm, m)
+    if phase == "high":
+        cuts["high"] = (vstar, m.Tp, m)
+    elif phase == "both":
+        cuts["high"] = (v2, m2.Tp, m2)
+    first = min(cuts, key=lambda k: cuts[k][0])
+    vfirst, Tfirst, mm = cuts[first]
+    both_close = phase == "both" and abs(cuts["low"][0] - cuts["high"][0]) < CUT_MARGIN
+    if both_close:
+        v.label("cut:both-close")
+    # tolerance on the velocity at which the range is reached (condition measure of the construction)
+    pick = (lambda x: x.Tm) if first == "low" else (lambda x: x.Tp)
+    try:
+        slope = _deflag_family_slopes(eos, Tn, vfirst, mm, pick)
+    except R.RefFailure:
+        slope = None
+    if slope is None or not mm.dTn_dvp:
+        return v.discarded("reference:cut-slope")
+    dvp = K * (atol + rtol * mm.vp) + K * rtol * Tn / abs(mm.dTn_dvp)
+    dT = abs(mm.dTm_dvp if first == "low" else mm.dTp_dvp) * dvp + box(Tfirst, rtol, atol)
+    allowed = K * (atol + rtol * vfirst) + (dT / slope if slope > 0 else float("inf"))
+    v.info.update(vstar=vfirst, Tcut=Tfirst, fastest_allowed=allowed)
+    if not allowed < ILL_COND_V:
+        # the range end is closer to the temperatures of ALL slower walls than the solver can resolve
+        v.label("cut:ill-conditioned")
+        return v.discarded("cut:ill-conditioned")
+    if strong and AVOID["fastest_bracket_end"] and not case.get("force"):
+        # known finding C06-fastestDeflag-bracket-end: see AVOID
+        try:
+            mlow = R.match_deflag(eos, Tn, vmin + 1e-3)
+        except R.RefFailure:
+            mlow = None
+        if mlow is None or not mlow.ok or mlow.vp < 1.05e-3:
+            v.label("avoided:fastest_bracket_end")
+            return v
+    rg = _ranges(meta, low_hi=cuts["low"][1] / Tn if "low" in cuts else None,
                  high_hi=cuts["high"][1] / Tn if "high" in cuts else None,
                  genuine=case["genuine"], extrapolate=case["extrapolate"])
     if rg is None:
         v.label("cut:beyond-natural-end")
         return v
-    first = min(cuts, key=lambda k: cuts[k][0])
-    vfirst, Tfirst = cuts[first]
-    if phase == "both" and abs(cuts["low"][0] - cuts["high"][0]) < 1e-3:
-        v.label("cut:both-coincide")
     ctx = setup(case, v, dict(spec, ranges=rg))
     try:
         hyd, _, _, vJ2 = ctx.make_solver()
@@ -642,29 +733,23 @@ def check_cut(case, v):
         v.label("outcome:WallGoError")
         v.info["error"] = str(exc)[:160]
         return v
+    except TypeError as exc:
+        # findMatching returned a tuple of None at a point of fastestDeflag's root search
+        v.checked("cut-fastest")
+        v.fail("cut-fastest", cls0 + "/TypeError",
+               f"{first}-T range ends at T({vfirst:.8g}) = {Tfirst:.8g} inside the window [vMin={vmin:.6g}, vJ={vJ:.6g}] "
+               f"but fastestDeflag() raised TypeError: {exc}", vstar=vfirst, Tcut=Tfirst)
+        return v
     flags = list(hyd.doesPhaseTraceLimitvmax)
-    # slope dT/dvw along the exact family at the first cut
-    h = 1e-4 * vfirst
-    ma = R.match_deflag(eos, Tn, vfirst - h)
-    mb = R.match_deflag(eos, Tn, vfirst + h)
-    mm = m if vfirst == vstar else R.match_deflag(eos, Tn, vfirst)
-    if not (ma.ok and mb.ok and mm.ok and mm.dTn_dvp):
-        return v.discarded("reference:cut-slope")
-    pick = (lambda x: x.Tm) if first == "low" else (lambda x: x.Tp)
-    slope = abs(pick(mb) - pick(ma)) / (2 * h)
-    dvp = K * (atol + rtol * mm.vp) + K * rtol * Tn / abs(mm.dTn_dvp)
-    dT = abs(mm.dTm_dvp if first == "low" else mm.dTp_dvp) * dvp + box(Tfirst, rtol, atol)
-    allowed = K * (atol + rtol * vfirst) + (dT / slope if slope > 0 else float("inf"))
     v.checked("cut-fastest")
     v.nontrivial = True
     v.label(f"cut-kind:{mm.kind}", f"cut-first:{first}")
-    v.info.update(vstar=vfirst, fastest=vf, fastest_err=vf - vfirst, fastest_allowed=allowed, Tcut=Tfirst,
-                  fastest_ratio=abs(vf - vfirst) / allowed if allowed > 0 else None)
+    v.info.update(fastest=vf, fastest_err=vf - vfirst, fastest_ratio=abs(vf - vfirst) / allowed)
     if not abs(vf - vfirst) <= allowed:
         v.fail("cut-fastest", cls0,
                f"{first}-T range ends at T({vfirst:.8g}) = {Tfirst:.8g}: fastestDeflag() = {vf:.10g}, expected "
-               f"{vfirst:.10g} (difference {vf - vfirst:.3e}, allowed {allowed:.2e}); vJ = {vJ2:.8g}",
-               vstar=vfirst, fastest=vf, Tcut=Tfirst, cuts={k: list(x) for k, x in cuts.items()})
+               f"{vfirst:.10g} (difference {vf - vfirst:.3e}, allowed {allowed:.2e}); vMin = {vmin:.6g}, vJ = {vJ2:.8g}",
+               vstar=vfirst, fastest=vf, Tcut=Tfirst, cuts={k: list(x[:2]) for k, x in cuts.items()})
         return v
     # flags
     v.checked("cut-flag")
@@ -675,38 +760,47 @@ def check_cut(case, v):
     if ctx.fam == "cubic" and "low" not in cuts:
         want_flags[1] = flags[1]  # natural genuine end of the broken phase: not constructed here
     if phase == "both":
-        # the phase whose range is reached later may or may not be found by the bracketed search
-        later = "low" if first == "high" else "high"
-        idx = 1 if later == "low" else 0
+        # the phase whose range is reached later may or may not be seen by the bracketed search
+        idx = 1 if first == "high" else 0
         want_flags[idx] = flags[idx] if not case["genuine"] else False
+        if both_close and not case["genuine"]:
+            want_flags = list(flags) if any(flags) else want_flags
     v.info["flags"] = flags
     if flags != want_flags:
         v.fail("cut-flag", cls0,
-               f"doesPhaseTraceLimitvmax = {flags}, expected {want_flags} (ranges reached: {sorted(cuts)}, "
-               f"genuine end = {case['genuine']})", flags=flags, expected=want_flags)
+               f"doesPhaseTraceLimitvmax = {flags}, expected {want_flags} (ranges reached: {sorted(cuts)}, first "
+               f"{first}, genuine end = {case['genuine']})", flags=flags, expected=want_flags)
     # slower walls
     v.checked("cut-slower")
     n = 16
     a = max(vmin, 1e-3) + 1e-3
+    top = vf - 2.0 * allowed - 1e-3 * vf
     Tlow_max = rg["low"][1] * Tn
     Thigh_max = rg["high"][1] * Tn
     for i in range(n):
-        vw = a + (vf * (1.0 - 1e-3) - a) * i / (n - 1)
-        br, res = run_matching(v, ctx, hyd, vw, f"{cls0}/scan")
+        vw = a + (top - a) * i / (n - 1)
+        if not a <= vw < vf:
+            continue
+        res = _scan(v, ctx, hyd, vw, f"{cls0}/scan")
         if res is None:
             continue
         over_low = res[3] - Tlow_max - box(Tlow_max, rtol, atol)
         over_high = res[2] - Thigh_max - box(Thigh_max, rtol, atol)
         if over_low > 0 or over_high > 0:
-            # physics or solver?  ask the reference at this velocity
-            mr = R.match_deflag(eos, Tn, vw, hint_vp=res[0])
-            if mr.ok and ((over_low > 0 and mr.Tm > Tlow_max) or (over_high > 0 and mr.Tp > Thigh_max)):
+            # physics or solver?  ask the reference (on the uncut EOS: identical below the range ends)
+            a_, why = ref_allow(ctx0, vw, res[0])
+            if a_ is None:
+                return v.discarded(f"reference:{why}")
+            mr = a_["ref"]
+            if (over_low > 0 and mr.Tm > Tlow_max) or (over_high > 0 and mr.Tp > Thigh_max):
                 v.label("cut:non-monotone")
                 return v.discarded("cut:non-monotone")
-            v.fail("cut-slower", cls0,
-                   f"wall vw={vw:.8g} slower than fastestDeflag()={vf:.8g} has (T+, T-) = ({res[2]:.10g}, {res[3]:.10g}) "
-                   f"outside the tabulated ranges (max {Thigh_max:.10g}, {Tlow_max:.10g})", vw=vw, matching=list(res))
-            break
+            if (over_low > 0 and res[3] - mr.Tm > a_["Tm"]) or (over_high > 0 and res[2] - mr.Tp > a_["Tp"]):
+                v.fail("cut-slower", cls0,
+                       f"wall vw={vw:.8g} slower than fastestDeflag()={vf:.8g} has (T+, T-) = ({res[2]:.10g}, "
+                       f"{res[3]:.10g}) outside the tabulated ranges (max {Thigh_max:.10g}, {Tlow_max:.10g}); the exact "
+                       f"matching has ({mr.Tp:.10g}, {mr.Tm:.10g})", vw=vw, matching=list(res))
+                break
     return v
 
 
